@@ -14,7 +14,7 @@ RULE = (
     "Hypothesis: short statement sequences (1..4) whose statements need more distinct prefix / datatype / name entries "
     "than the table holds, and their non-overflowing neighbours: max_prefixes 1..4 with 1..4 distinct prefixes per "
     "statement; max_datatypes 1..4 with generalized typed literals in s/p/o/g; max_names 8..28 with nested quoted triples "
-    "carrying up to 27 IRIs; all three physical types, generic and (prefix case) rdflib encoders. Oracle: serialisation "
+    "carrying up to 27 IRIs; all three physical types, generic and (prefix and datatype cases) rdflib encoders. Oracle: serialisation "
     "raises, or the reference decoder R decodes the bytes to exactly the input; when it raises, the sequence is driven again "
     "statement by statement with the caller skipping refused statements - the file must then decode to exactly the accepted ones; when every table has at least as many "
     "slots as the largest statement has IRI / datatype occurrences the call must not raise (no blanket refusal). "
@@ -67,12 +67,16 @@ def overflow_case(draw):
             stmts.append([["iri", draw(st.sampled_from(pool)) + draw(st.sampled_from(LOC[:3]))] for _ in range(arity)])
         preset = [draw(st.sampled_from([8, 16])), draw(st.integers(1, 4)), 32]
     elif kind == "datatype":
+        integration = draw(st.sampled_from(["generic", "generic", "rdflib"]))
         m = draw(st.integers(1, 5))
         pool = DTS[:m]
         for _ in range(n_stmts):
             s = [["lit", draw(st.sampled_from(["1", "2"])), None, draw(st.sampled_from(pool))] for _ in range(arity)]
             if draw(st.booleans()):
                 s[1] = ["iri", "http://p0.org/p"]
+            if integration == "rdflib" and arity == 4:
+                # the rdflib encoder takes literals in s/p/o (generalized statements) but not as graph names
+                s[3] = draw(st.sampled_from([["default"], ["iri", "http://p0.org/g"]]))
             stmts.append(s)
         preset = [16, draw(st.sampled_from([0, 8])), draw(st.integers(1, 4))]
     else:
